@@ -225,7 +225,7 @@ func checkC16(e *Env) {
 	values += histCalls
 
 	// the concurrent flavour of this monitor (C12 is the full treatment)
-	concCalls := e.concurrentSmoke(drv, "C16", e.smokePool("C16", "str"), e.pick(2, 12), e.pick(2000, 10000), e.smokeStr())
+	concCalls := e.concurrentSmoke(drv, "C16", e.smokePool("C16", "str"), e.pick(24, 120), e.pick(1000, 4000), e.smokeStr())
 
 	// histories: the name of a value before and after the same value was used as the language
 	// argument of every other function (and after other values were)
